@@ -35,6 +35,7 @@ type evalCtx struct {
 	pkg     *types.Package
 	depth   int
 	bound   map[string]bool
+	rawMaps bool // map lookups without the presence test (pattern terms)
 }
 
 type evalErr struct{ msg string }
@@ -218,6 +219,15 @@ func (c *evalCtx) coerce(v TVal, t types.Type) TVal {
 	return v
 }
 
+// coerceLike gives constant k the type and the actual bit width of v (which
+// may be a widened vector).
+func (c *evalCtx) coerceLike(k TVal, v TVal) TVal {
+	if s, ok := v.V.(Sc); ok && s.S.IsBV() {
+		return TVal{V: Sc{bvLit(k.C, s.S.Width()), s.S}, T: v.T}
+	}
+	return c.coerce(k, v.T)
+}
+
 func (c *evalCtx) lookupIdent(name string) (TVal, bool) {
 	if v, ok := c.env[name]; ok {
 		return v, true
@@ -348,9 +358,9 @@ func (c *evalCtx) unify(a, b TVal) (TVal, TVal) {
 	case a.C != nil && b.C != nil:
 		return c.coerce(a, nil), c.coerce(b, nil)
 	case a.C != nil:
-		return c.coerce(a, b.T), b
+		return c.coerceLike(a, b), b
 	case b.C != nil:
-		return a, c.coerce(b, a.T)
+		return a, c.coerceLike(b, a)
 	}
 	return a, b
 }
@@ -462,6 +472,9 @@ func (c *evalCtx) evalIndex(x *EIndex) TVal {
 	case KMap:
 		mt := t.Underlying().(*types.Map)
 		k := c.coerce(iv, mt.Key())
+		if c.rawMaps {
+			return TVal{V: c.ex.mapGetRaw(c.st, t, sc(base.V).T, sc(k.V).T), T: mt.Elem()}
+		}
 		v, _ := c.ex.mapGet(c.st, t, sc(base.V).T, sc(k.V).T)
 		return TVal{V: v, T: mt.Elem()}
 	case KSlice:
@@ -620,13 +633,60 @@ func (c *evalCtx) evalQuant(x *EQuant) TVal {
 		n.env[qv.Name] = TVal{V: v, T: t}
 		// int-typed bound variables range over non-negative... no: leave unrestricted
 	}
-	body := n.boolTerm(x.Body)
+	c.ex.vc.noBind++
+	body := func() string {
+		defer func() { c.ex.vc.noBind-- }()
+		return n.boolTerm(x.Body)
+	}()
 	_ = ranges
 	q := "forall"
 	if !x.Forall {
 		q = "exists"
 	}
+	if len(x.Triggers) > 0 {
+		c.ex.vc.noBind++
+		var pats []string
+		for _, t := range x.Triggers {
+			pats = append(pats, n.patternTerm(t))
+		}
+		c.ex.vc.noBind--
+		body = fmt.Sprintf("(! %s :pattern (%s))", body, strings.Join(pats, " "))
+	}
 	return boolTV(fmt.Sprintf("(%s (%s) %s)", q, strings.Join(decls, " "), body))
+}
+
+// patternTerm turns a trigger expression into a term usable as an SMT pattern
+// (a select / function application without logical connectives).
+func (c *evalCtx) patternTerm(e Expr) string {
+	switch x := e.(type) {
+	case *ECall:
+		if x.Fn == "in" && len(x.Args) == 2 {
+			k, m := c.eval(x.Args[0]), c.eval(x.Args[1])
+			mt := m.T.Underlying().(*types.Map)
+			k = c.coerce(k, mt.Key())
+			mi := c.ex.mapInfo(m.T)
+			return sel(c.ex.mapDom(c.st, mi, sc(m.V).T), sc(k.V).T)
+		}
+		if x.Fn == "old" {
+			return c.withState(c.old).patternTerm(x.Args[0])
+		}
+	case *EIndex:
+		base := c.eval(x.X)
+		if kindOf(base.T) == KMap {
+			mt := base.T.Underlying().(*types.Map)
+			k := c.coerce(c.eval(x.I), mt.Key())
+			v := c.ex.mapGetRaw(c.st, base.T, sc(base.V).T, sc(k.V).T)
+			return leavesOf(v)[0].T
+		}
+	}
+	n := *c
+	n.rawMaps = true
+	v := n.eval(e)
+	ls := leavesOf(v.V)
+	if len(ls) == 0 {
+		c.errf("trigger expression has no term")
+	}
+	return ls[0].T
 }
 
 func (c *evalCtx) evalCall(x *ECall) TVal {
@@ -681,6 +741,27 @@ func (c *evalCtx) evalCall(x *ECall) TVal {
 			c.errf("fresh(): not a reference")
 		}
 		return boolTV(and(not(eq(r, z64())), not(sel(c.old.alloc, r))))
+	case "allocated":
+		v := arg(0)
+		var r string
+		switch p := v.V.(type) {
+		case Sc:
+			r = p.T
+		case *Agg:
+			r = sc(p.F[0]).T
+		default:
+			c.errf("allocated(): not a reference")
+		}
+		return boolTV(sel(c.st.alloc, r))
+	case "refof":
+		v := arg(0)
+		switch p := v.V.(type) {
+		case Sc:
+			return TVal{V: p, T: types.Typ[types.Uint64]}
+		case *Agg:
+			return TVal{V: p.F[0], T: types.Typ[types.Uint64]}
+		}
+		c.errf("refof(): not a reference value")
 	case "unchanged":
 		var cs []string
 		for _, a := range x.Args {
@@ -737,6 +818,16 @@ func (c *evalCtx) evalCall(x *ECall) TVal {
 			return TVal{V: Sc{resize(s.T, s.S.Width(), n, isSigned(v.T)), BV(n)}, T: wideType(n, isSigned(v.T))}
 		}
 	}
+	if strings.HasPrefix(x.Fn, "trunc") {
+		if n, err := strconv.Atoi(x.Fn[5:]); err == nil {
+			v := arg(0)
+			if v.C != nil {
+				return TVal{V: Sc{bvLit(v.C, n), BV(n)}, T: wideType(n, false)}
+			}
+			s := sc(v.V)
+			return TVal{V: Sc{resize(s.T, s.S.Width(), n, false), BV(n)}, T: wideType(n, false)}
+		}
+	}
 	if strings.HasPrefix(x.Fn, "swide") {
 		if n, err := strconv.Atoi(x.Fn[5:]); err == nil {
 			v := arg(0)
@@ -761,6 +852,27 @@ func (c *evalCtx) evalCall(x *ECall) TVal {
 	if pf, ok := c.ex.db.pures[x.Fn]; ok {
 		if len(x.Args) != len(pf.Params) {
 			c.errf("%s: expected %d arguments, got %d", x.Fn, len(pf.Params), len(x.Args))
+		}
+		if pf.Opaque && !c.ex.revealed[pf.Name] {
+			// uninterpreted: only single-leaf parameters and result
+			var sorts []Sort
+			var terms []string
+			n0 := *c
+			if p := c.findPkg(pf.Pkg); p != nil {
+				n0.pkg = p
+			}
+			for i, p := range pf.Params {
+				pt := n0.resolveType(p.Type)
+				a := c.coerce(arg(i), pt)
+				s := sc(a.V)
+				sorts = append(sorts, s.S)
+				terms = append(terms, s.T)
+			}
+			rt := n0.resolveType(pf.Result)
+			rs := scalarSort(rt)
+			// widened parameters keep their declared Go type width
+			c.ex.vc.DeclareFun("spec_"+pf.Name, sorts, rs)
+			return TVal{V: Sc{app("spec_"+pf.Name, terms...), rs}, T: rt}
 		}
 		n := *c
 		n.env = map[string]TVal{}
